@@ -351,6 +351,35 @@ Proof.
   - exact H.
 Qed.
 
+Lemma sorted_NoDup l : sorted l -> NoDup l.
+Proof.
+  intros Hs. induction l as [|x l IH]; [constructor|].
+  constructor; [apply sorted_not_in; exact Hs|]. apply IH. inversion Hs; assumption.
+Qed.
+
+(* re-declaring an id with the same payload and another deadline MOVES the deadline: whatever the
+   history, after OSet id v ex1 ; OSet id v ex2 the index has no repeated entry and the entries of
+   id are exactly: (ex2, id) when ex2 <> 0, none when ex2 = 0. In particular the entry (ex1, id) of
+   the first declaration is gone (unless ex1 = ex2), and a permanent id re-declared with a deadline
+   gets exactly that one entry. (Hooks and channels: id = name, payload = definition.) *)
+Theorem redeclare_moves_deadline ops id v ex1 ex2 :
+  let c := apply (apply (fold_left apply ops cnew) (OSet id v ex1)) (OSet id v ex2) in
+  NoDup (expires c) /\
+  lookup id (objs c) = Some (mkObj v ex2) /\
+  forall e, snd e = id -> (In e (expires c) <-> ex2 <> 0 /\ e = (ex2, id)).
+Proof.
+  cbn zeta.
+  set (c1 := apply (fold_left apply ops cnew) (OSet id v ex1)).
+  assert (Hwf : Wf (apply c1 (OSet id v ex2))) by (apply wf_apply, wf_apply, wf_reachable).
+  assert (Hl : lookup id (objs (apply c1 (OSet id v ex2))) = Some (mkObj v ex2)).
+  { cbn. rewrite bytes_eqb_refl. reflexivity. }
+  destruct Hwf as [Hs Hw]. split; [apply sorted_NoDup; exact Hs|]. split; [exact Hl|].
+  intros e Hid. rewrite Hw, Hid, Hl. split.
+  - intros [o [Ho [Hex Hnz]]]. inversion Ho; subst o. cbn in Hex. split; [congruence|].
+    destruct e as [ee ei]; cbn in *. subst. reflexivity.
+  - intros [Hnz ->]. exists (mkObj v ex2). cbn. auto.
+Qed.
+
 Theorem persist_removes_deadline ops id p now :
   let c0 := fold_left apply ops cnew in
   lookup id (objs c0) = Some p ->
